@@ -82,6 +82,8 @@ var c08AnchorPool = []string{
 	// the loop variable auto-create, which is the recorded deviation of the main family)
 	`ro!.items[] as $u ireduce ({}; . * {"k": $u.meta.owner})`, `ro!.items[] as $u ireduce ({}; .[$u.v | tostring] = $u.meta.owner)`, `ro!.flowseq[] as $u ireduce ({}; . * {($u.v | tostring): $u.zz.deep})`,
 	`ro!.refsmap[] as $u ireduce ({"n": 0}; .n += ($u.zz_missing | length))`, `ro!.items[] as $u ireduce ([]; . + [$u.spec.zz])`, `ro!.flowseq[] as $u ireduce ({}; {"last": $u.meta.owner})`,
+	// operators that stamp positions on their results
+	`split_doc`, `.items[] | split_doc`, `[.refs[] | split_doc] | length`, `.service | split_doc | document_index`, `document_index`, `[.. | document_index] | unique`,
 	// comparisons and orderings over nodes that are or contain aliases
 	`.items | unique_by(.spec)`, `.items | unique`, `.items | group_by(.spec)`, `.items | sort_by(.spec)`, `.items | sort`, `.refs | unique`, `.refs | sort`,
 	`.items | unique_by(.spec.a)`, `.items | map(.spec == .spec)`, `.items[0] == .items[1]`, `.refs[0] == .spec`, `.items | any_c(.spec.a == 1)`,
@@ -134,7 +136,17 @@ func c08AnchorCase(w *mon.Worker, r *rand.Rand) mon.Result {
 	default:
 		expr = "(((" + e + ") == 1) | select(false)), ."
 	}
+	two := false
+	if r.IntN(5) == 0 && (tpl == 0 || tpl == 1 || tpl == 3) { // (read-only templates: the first document has none of the keys, reads there must not create them)
+		// the document as SECOND document of a stream (its nodes carry a document index other than 0, the printer
+		// separates the two by what they report)
+		text = "first: 1\nitems: [1]\n---\n" + text
+		two = true
+	}
 	res := mon.Result{Tags: []string{"tpl:anchored", fmt.Sprintf("anchored_tpl:%d", tpl)}, Case: map[string]any{"doc": text, "expr": expr}}
+	if two {
+		res.Tags = append(res.Tags, "second_document")
+	}
 	res.Sig = fmt.Sprintf("anchored|%d|%s|%x", tpl, e, hashStr(text))
 	base, berr, bpan := yqx.Eval(".", text, "yaml", "yaml")
 	if berr != nil || bpan != nil {
